@@ -109,7 +109,7 @@ def main(argv=None):
     viol_path = os.path.join(VERIF, "evidence", f"{prop}.viol.json")
     if res.violations:
         status = 1
-        if os.path.abspath(args.root) != "/repo" and args.evidence:
+        if args.evidence:
             viol_path = args.evidence + ".viol.json"
         write_json(viol_path, {"property": prop, "root": args.root,
                                "recheck": f"./check {prop} --root {args.root} --rule <rule id before '/'>",
